@@ -80,6 +80,25 @@ def gen_case(rng):
     return lines
 
 
+def legal(script):
+    """holder discipline: unlock only by a waiter whose grant has run"""
+    m = PyMutex()
+    for l in script:
+        ws = l.split()
+        if ws[1] == "new": m = PyMutex()
+        elif ws[1] == "lock": m.lock(int(ws[2]), ws[3] == "1")
+        elif ws[1] == "unlock":
+            if not m.holder_delivered: return False
+            m.unlock()
+        elif ws[1] == "cancel": m.cancel(int(ws[2]), ws[3], ws[4] == "1")
+        elif ws[1] == "cancelall": m.cancelall()
+        elif ws[1] == "destroy": m.cancelall(); m.locked = False; m.holder_delivered = False
+        elif ws[1] == "run1": m.run1()
+        elif ws[1] == "drain":
+            while m.posted: m.run1()
+    return True
+
+
 def monitor(case, outs):
     """the property on the implementation's outputs; None or a description"""
     arrival = []; resolved = {}; holder = None; cancelled_effective = set(); granted = []
@@ -142,9 +161,12 @@ def run(ctx):
             if sum(1 for l in c if " lock " in l) >= 2 and any(" cancel " in l for l in c): nontriv.add(tuple(c))
             if why and not found:
                 found = True
+                TAIL = ["mtx drain", "mtx cancelall", "mtx drain"]
                 def fails(sub):
-                    o, _, _ = run_lines(hb, ["mtx new"] + sub); return len(o) == len(sub) + 1 and monitor(["mtx new"] + sub, o) is not None
-                small = ["mtx new"] + ddmin(c[1:], fails)
+                    sc = ["mtx new"] + sub + TAIL
+                    if not legal(sc): return False
+                    o, _, _ = run_lines(hb, sc); return len(o) == len(sc) and monitor(sc, o) is not None
+                small = ["mtx new"] + ddmin(c[1:-3], fails) + TAIL
                 o, _, _ = run_lines(hb, small)
                 ctx.violation("monitor", {"what": "async_mutex violates C11: " + why, "script": small, "impl_output": o})
         ctx.cov["distinct_nontrivial"] = len(nontriv)
